@@ -202,6 +202,25 @@ func runC18(c *core.Ctx) {
 			}
 		}
 	}
+	// metadata that publishes no signing key at all (keys for encryption only, or no key): nothing is trusted, and a
+	// perfectly formed logout response signed with a published encryption-use key is as invalid as any other
+	for i := 0; i < c.Pick(24, 600); i++ {
+		if !mine() {
+			continue
+		}
+		lay := [][]string{{"idp_e"}, {"idp_e", "idp_s2"}, {"idp_s1"}, {}}[i%4]
+		sp := so.NewSP("meta-one-signing", fx.K("sp_rsa2048"))
+		var kds []saml.KeyDescriptor
+		for _, n := range lay {
+			kds = append(kds, saml.KeyDescriptor{Use: "encryption", KeyInfo: saml.KeyInfo{X509Data: saml.X509Data{X509Certificates: []saml.X509Certificate{{Data: fx.K(n).CertB64()}}}}})
+		}
+		sp.IDPMetadata.IDPSSODescriptors[0].KeyDescriptors = kds
+		k := base()
+		k.trust = so.Trust{Name: fmt.Sprintf("meta-encryption-only(%s)", strings.Join(lay, "+")), Roots: nil}
+		k.signer = append(append([]string{}, lay...), "idp_s1", "idp_e")[c.Rng.Intn(len(lay)+2)]
+		c.Count("logout_responses_for_metadata_without_signing_key")
+		c18Run(c, o, map[string]*saml.ServiceProvider{k.trust.Name: sp}, actx, k, 0)
+	}
 	// attacked
 	n := c.Pick(9000, 250000)
 	for i := 0; i < n; i++ {
@@ -366,7 +385,7 @@ func c18Run(c *core.Ctx, o *so.Oracle, sps map[string]*saml.ServiceProvider, act
 	c.Journal("C18 " + desc + "\n" + string(trunc(doc, 8000)))
 	sp := sps[k.trust.Name]
 	var verr error
-	if (k.enc == 1 || k.enc == 2) && c.Rng.Intn(3) == 0 {
+	if (k.enc == 1 || k.enc == 2) && len(k.trust.Roots) > 0 && c.Rng.Intn(3) == 0 {
 		// just before: a genuine, valid, trusted-signed response whose DEFLATE stream is cut short (flushed, no final block,
 		// or simply truncated) arrives at the same SP; whatever it leaves behind must not colour the next message
 		g := k
